@@ -69,7 +69,16 @@ func TestC11Controller(t *testing.T) {
 			var sch []any
 			nb := 1 + rng.IntN(3)
 			for b := 0; b < nb; b++ {
-				bb := bnd{Name: fmt.Sprintf("h%ds%d", h, b), Crontab: crontabs[rng.IntN(len(crontabs))], Allow: rng.IntN(3) == 0, Queue: []string{"", "qa", "qb"}[rng.IntN(3)]}
+				bname := fmt.Sprintf("h%ds%d", h, b)
+				if c.Index%4 == 3 {
+					// binding names need not be unique within a hook (unnamed schedule bindings all default to
+					// "schedule"): the first two bindings of every hook share a name; each is still one task per tick
+					bname = fmt.Sprintf("h%ds%d", h, b/2)
+					if b == 1 {
+						res.Count("same_named_schedule_bindings", 1)
+					}
+				}
+				bb := bnd{Name: bname, Crontab: crontabs[rng.IntN(len(crontabs))], Allow: rng.IntN(3) == 0, Queue: []string{"", "qa", "qb"}[rng.IntN(3)]}
 				d := m{"name": bb.Name, "crontab": bb.Crontab}
 				if bb.Allow {
 					d["allowFailure"] = true
